@@ -65,7 +65,7 @@ MH_SHA256_UPDATE_FUNCTION(struct isal_mh_sha256_ctx *ctx, const void *buffer, ui
 
         ctx->total_length += len;
         // No enough input data for mh_sha256 calculation
-        if (len + partial_block_len < ISAL_MH_SHA256_BLOCK_SIZE) {
+        if ((uint64_t) len + partial_block_len < ISAL_MH_SHA256_BLOCK_SIZE) {
                 memcpy(partial_block_buffer + partial_block_len, input_data, len);
                 return ISAL_MH_SHA256_CTX_ERROR_NONE;
         }
